@@ -42,6 +42,7 @@ fn pay(o: Tr?) -> Tr { match o { Some(v) => v, None => mk(901) } }
 fn first(l: List[Tr]) -> Tr { match l.get(0) { Some(v) => v, None => mk(902) } }
 fn mkr(k: u64) -> R { R { t: mk(k), n: 1 } }
 fn optn(c: bool) -> i32? { if c { Option.Some(1) } else { Option.None } }
+fn optb(c: bool, r: bool) -> bool? { if c { Option.Some(r) } else { Option.None } }
 fn ena(e: En) -> u64 { match e { A(x, y) => val(x) + val(y), B(n) => 1, C => 2, D(n, x) => n + val(x), E(p, q, x) => val(x), F(x, n, s) => val(x) + n } }
 fn payd(e: En) -> Tr { match e { D(n, x) => x, E(p, q, x) => x, F(x, n, s) => x, A(x, y) => y, _ => mk(903) } }
 ";
@@ -293,7 +294,21 @@ impl G {
                 format!("let {t} = {{ let q = {v1}; {inner} {v2} }};")
             }
             St::ExitIn(kind) => {
-                self.features.push(["exit_in_record", "exit_in_enum", "exit_in_list", "exit_in_call_args", "exit_in_method_args", "exit_in_short_circuit"][kind as usize]);
+                self.features.push(
+                    [
+                        "exit_in_record",
+                        "exit_in_enum",
+                        "exit_in_list",
+                        "exit_in_call_args",
+                        "exit_in_method_args",
+                        "exit_in_short_circuit",
+                        "exit_in_record_before_owned_field",
+                        "exit_in_anonymous_record_owned_field",
+                        "exit_in_record_middle_owned_field",
+                        "exit_in_match_guard",
+                        "exit_in_match_guard_two_binders",
+                    ][kind as usize],
+                );
                 let r = self.fresh("r");
                 let (v1, v2, v3) = (self.v(), self.v(), self.v());
                 let c1 = self.cond();
@@ -325,7 +340,34 @@ impl G {
                     let op = if self.pos % 2 == 0 { "&&" } else { "||" };
                     return format!("let {r} = {v1}; let {r}c = {c1} {op} {{ {ret} }};");
                 }
+                if kind >= 9 {
+                    // the guard of a match arm leaves the function while the arm's
+                    // binders (and the scrutinee) are alive
+                    let c2 = self.cond();
+                    let exit_bool = if self.sig == Sig::RetOpt {
+                        format!("optb({c1}, {c2})?")
+                    } else {
+                        let ret = match self.sig {
+                            Sig::Plain | Sig::TrArg | Sig::StrListArg => "return 9;".to_string(),
+                            Sig::RetTr => format!("return {v3};"),
+                            Sig::Filter => format!("reject {v3};"),
+                            Sig::RetOpt => unreachable!(),
+                        };
+                        format!("{{ if !({c1}) {{ {ret} }} {c2} }}")
+                    };
+                    let c0 = self.cond();
+                    return if kind == 9 {
+                        format!(
+                            "match opt({c0}, {v1}) {{ Some({r}) if {exit_bool} => {{ emit_tr({r}); }}, Some({r}) => {{ emit_tr({r}); }}, None => {{ }}, }}"
+                        )
+                    } else {
+                        format!("match En.A({v1}, {v2}) {{ A({r}, {r}z) if {exit_bool} => {{ emit_tr({r}z); }}, _ => {{ }}, }}")
+                    };
+                }
                 match kind {
+                    6 => format!("let {r} = R {{ n: {exit_i32}, t: {v1} }};"),
+                    7 => format!("let {r} = {{ a: {v1}, b: {exit_tr}, c: f\"{{a}}\" }};"),
+                    8 => format!("let {r} = R2 {{ n: 5, t: {exit_tr}, s: f\"{{a}}\" }};"),
                     0 => format!("let {r} = R {{ t: {v1}, n: {exit_i32} }};"),
                     1 => format!("let {r} = En.A({v1}, {exit_tr});"),
                     2 => format!("let {r} = [{v1}, {exit_tr}];"),
@@ -368,11 +410,19 @@ pub enum St {
     ShortCircuit,
     /// early exit (`?` or `return`) in the middle of building a record (0),
     /// enum (1), list (2), call arguments (3), method call arguments (4),
-    /// the right operand of `&&` / `||` (5)
+    /// the right operand of `&&` / `||` (5), a record field BEFORE an owned field
+    /// (6), an owned field of an anonymous record with an owned field after it (7),
+    /// the middle owned field of a named record (8), a match guard with one (9) or
+    /// two (10) owned binders alive
     ExitIn(u8),
 }
 
-pub const STMTS: [St; 29] = [
+pub const STMTS: [St; 34] = [
+    St::ExitIn(6),
+    St::ExitIn(7),
+    St::ExitIn(8),
+    St::ExitIn(9),
+    St::ExitIn(10),
     St::ExitIn(5),
     St::ExitIn(0),
     St::ExitIn(1),
